@@ -1,5 +1,10 @@
 """C18 — JSON, TSV/CSV and parameter-file serialisation round-trips (DESIGN.md §5 C18)."""
+import json
 import math
+import os
+import re
+import subprocess
+import sys
 from fractions import Fraction
 import numpy as np
 from . import common as C
@@ -12,7 +17,14 @@ RULE = ('JSON: dictionaries with int (incl. negative, zero) and non-integer-like
         'values {None, bool, int, float, str, list, nested dict, NumPy scalars, ndarrays of every numeric dtype '
         'incl. bool/float16/complex/big-endian, rank 0..3, empty, C / Fortran / transposed / strided / reversed / '
         'offset views (sent to the model with their real strides and offset), 1-D of 9/10/11 items, NaN inside '
-        'arrays}. TSV/CSV: row lists over a field alphabet (>= 2 columns in the union; names with spaces, commas, '
+        'arrays}; str values, nested keys and top-level keys over EVERY class of Python str code point (ASCII controls '
+        'incl. NUL/DEL, quote and backslash, Latin-1, BMP incl. U+2028 / noncharacters, astral, and LONE SURROGATES - '
+        'what os.listdir / os.fsdecode return for a file name that is not valid UTF-8, PEP 383 - which no text encoding '
+        'of the file can hold; only a high surrogate directly followed by a low one is left out: the json library '
+        'itself joins the two - the text-layer cases (op jsonstr) include them and compare with what the model scanner of '
+        'Model/C18j gives); the same dictionaries also saved and loaded by a CHILD PROCESS of the real code '
+        'running under a non-UTF-8 locale (LC_ALL=C, UTF-8 mode off: the locale encoding of path.open(\'w\') / '
+        'read_text() is ASCII there). TSV/CSV: row lists over a field alphabet (>= 2 columns in the union; names with spaces, commas, '
         'quotes, a tab in .tsv files) with missing fields and fully empty rows, both delimiters, random integers, '
         'floats (float / float32 / float64; exact ties of %.4f included) and random string cells that int()/float() '
         'reject incl. tabs, commas, quotes; two-column cluster tables with negative and large ids and mixed value '
@@ -23,9 +35,76 @@ ASSUMPTIONS = ['json / base64 / repr of floats are transport: exercised through 
                'the theorems; csv, universal newlines, int()/float(), %.nf and the literal fragment of the Python '
                'parser are modelled (Model/C18c, C18p) and compared with the real libraries on every case',
                'the written files are compared with the model text character by character only as a tally (never an '
-               'alarm); load_metadata on a two-column file is checked on the Python side against the Lean spec of the file']
+               'alarm); load_metadata on a two-column file is checked on the Python side against the Lean spec of the file',
+               'the text written for a str, the strict codecs of the file and the string scanner are modelled code point by '
+               'code point (Model/C18j: json_string_text_ascii, json_string_encodable, json_string_roundtrip) and compared '
+               'with the json library as save_json / load_json use it on every jsonstr case; the file text itself is a tally',
+               'strings travel to the Lean driver through an injective escape (tok) of the code points a Lean String / '
+               'the JSON pipe cannot carry (surrogates, astral); the model treats str values as opaque',
+               'table and parameter files are text in the locale encoding by construction (write_tsv / write_python under '
+               'LC_ALL=C raise UnicodeEncodeError on a non-ASCII cell): the locale is varied for the JSON layer only, '
+               'whose file text is pure ASCII whatever the strings']
 DTYPES = ['bool', 'int8', 'uint8', 'int16', 'int32', 'int64', 'uint64', 'float16', 'float32', 'float64',
           'complex64', 'complex128', '>f4', '>i2', '<u4']
+
+
+# ---- strings ---------------------------------------------------------------------------------
+ESC = '\u0378'       # an unassigned BMP code point used as escape character by tok()
+
+
+def tok(s):
+    """injective image of a str inside the strings a Lean `String` and the driver's JSON pipe carry faithfully: every
+    code point >= U+D800 (surrogates - lone ones included -, private use, noncharacters, astral) and ESC itself become
+    ESC + 6 hex digits; everything else stays (so `tok` is the identity on the strings used before, and a string is
+    integer-like / equal to '__ndarray__' iff its image is)"""
+    if not isinstance(s, str):
+        return s
+    return ''.join(c if ord(c) < 0xD800 and c != ESC else ESC + '%06x' % ord(c) for c in s)
+
+
+def asc(x):
+    """text of a verdict: ASCII only (a VIOLATION line with a lone surrogate could not even be printed)"""
+    return x if x is None else x.encode('ascii', 'backslashreplace').decode('ascii')
+
+
+# code points by class (JSON string values, nested keys, top-level keys)
+CP = {
+    'ascii': list('aZ09 _-.'),
+    'ctrl': ['\x00', '\x01', '\x08', '\t', '\n', '\x0b', '\x0c', '\r', '\x1b', '\x1f', '\x7f'],
+    'json_special': ['"', '\\', '/', "'", '{', ']', ':', ','],
+    'latin1': ['\x80', '\x85', '\xa0', '\xe9', '\xb5', '\xff'],
+    'bmp': ['\u03b1', '\u0663', '\u2013', '\u2028', '\u2029', '\u795e', '\u7d30', '\ud7ff', '\ue000', '\ufdd0', '\ufeff',
+            '\ufffd', '\ufffe', '\uffff', ESC],
+    'astral': ['\U00010000', '\U0001f9e0', '\U0002a6d6', '\U000e0001', '\U0010fffd', '\U0010ffff'],
+    # U+DC80..U+DCFF: the bytes 0x80..0xFF of an undecodable file name (PEP 383 surrogateescape)
+    'low_surrogate': ['\udc80', '\udce9', '\udcff', '\udc00', '\udde0', '\udfff'],
+    'high_surrogate': ['\ud800', '\ud83e', '\udbff'],
+}
+CP_CLASS_OF = {c: k for k, v in CP.items() for c in v}
+INT_LIKE = re.compile(r'-?[0-9]+\Z')
+WORDS = ['rec_caf\udce9_2019.dat', 'caf\xe9 \xb5V \u03b1\u03b2\u03b3', '\u795e\u7d4c\u7d30\u80de', 'neuron \U0001f9e0', 'mua \u2013 na\xefve',
+         '\udde0\ud83e', '\ud83ex\udde0', '/data/\udcff\udc80/x.bin', 'a\x00b', '\\ud83e', '"\\u00e9"', '\x7f\x80']
+
+
+def joins(s):
+    """a high surrogate directly followed by a low one: json.loads(json.dumps(s)) is the ONE astral character (the json
+    library, not phylib) - the only strings left out"""
+    return any(0xD800 <= ord(a) <= 0xDBFF and 0xDC00 <= ord(b) <= 0xDFFF for a, b in zip(s, s[1:]))
+
+
+def rand_ustr(rng):
+    """a random str over all classes of code points"""
+    if rng.random() < .15:
+        return rng.pick(WORDS)
+    while True:
+        classes = rng.sample(sorted(CP), rng.randrange(1, 4))
+        s = ''.join(rng.pick(CP[rng.pick(classes)]) for _ in range(rng.randrange(1, 7)))
+        if not joins(s):
+            return s
+
+
+def str_classes(s):
+    return {CP_CLASS_OF.get(c, 'ascii' if ord(c) < 128 else 'other') for c in s}
 
 
 # ---- value <-> python ------------------------------------------------------------------------
@@ -108,7 +187,9 @@ def to_lean(v, mem):
     if t == 'list':
         return dict(t='list', v=[to_lean(x, mem) for x in v['v']])
     if t == 'dict':
-        return dict(t='dict', v=[[k, to_lean(x, mem)] for k, x in v['v']])
+        return dict(t='dict', v=[[tok(k), to_lean(x, mem)] for k, x in v['v']])
+    if t == 'str':
+        return dict(t='str', v=tok(v['v']))
     return v
 
 
@@ -123,7 +204,7 @@ def shape_of(x):
     if isinstance(x, float):
         return dict(t='float')
     if isinstance(x, str):
-        return dict(t='str', v=x)
+        return dict(t='str', v=tok(x))
     if isinstance(x, np.ndarray):
         return dict(t='arr', dtype=str(x.dtype), shape=list(x.shape), vals=[_r(y) for y in x.reshape(-1)])
     if isinstance(x, list):
@@ -132,7 +213,7 @@ def shape_of(x):
             d['vals'] = [_r(y) for y in x]
         return d
     if isinstance(x, dict):
-        return dict(t='dict', v=sorted([[k, shape_of(y)] for k, y in x.items()], key=lambda e: e[0]))
+        return dict(t='dict', v=sorted([[tok(k), shape_of(y)] for k, y in x.items()], key=lambda e: str(e[0])))
     return dict(t='other', v=type(x).__name__)
 
 
@@ -263,9 +344,45 @@ def dbl(x):
     return [math.copysign(1.0, x) < 0, num, -(den.bit_length() - 1)]
 
 
+# the real code in a child process whose locale encoding is not UTF-8 (what `path.open('w')` / `read_text()` use)
+CHILD_ENV = {'C': dict(LC_ALL='C', LANG='C', PYTHONUTF8='0', PYTHONCOERCECLOCALE='0')}
+
+
+def run_child(env_name, dicts):
+    """save_json / load_json of each dictionary, one after the other, by ONE fresh interpreter running under the locale
+    `env_name`; the cases go in and the results come out as ASCII JSON on the binary pipes"""
+    env = dict(os.environ)
+    env.update(CHILD_ENV[env_name])
+    env.pop('PYTHONIOENCODING', None)
+    env['VERIF_CODECOV'] = '0'
+    code = 'import sys; sys.path.insert(0, %r); from harness import prop_c18; prop_c18.child_main()' % str(C.VERIF)
+    try:
+        r = subprocess.run([sys.executable, '-c', code], input=json.dumps(dict(dicts=dicts)).encode('ascii'), env=env,
+                           stdout=subprocess.PIPE, stderr=subprocess.PIPE, timeout=600)
+    except (OSError, subprocess.SubprocessError) as e:
+        return dict(child_failed=repr(e)[:300])
+    try:
+        out = json.loads(r.stdout.decode('ascii'))
+        assert r.returncode == 0 and len(out['results']) == len(dicts)
+        return out
+    except Exception:  # noqa  (the child itself could not run: machinery, never an alarm)
+        return dict(child_failed='rc=%s stdout=%r stderr=%r' % (r.returncode, r.stdout[-300:], r.stderr[-600:]))
+
+
+def child_main():
+    import locale
+    req = json.loads(sys.stdin.buffer.read().decode('ascii'))
+    res = [C.call_impl(impl, dict(p=PID, op='json', dict=d)) for d in req['dicts']]
+    out = dict(encoding=locale.getpreferredencoding(False), utf8_mode=sys.flags.utf8_mode, results=res)
+    sys.__stdout__.buffer.write(json.dumps(out).encode('ascii'))
+    sys.__stdout__.buffer.flush()
+
+
 def impl(case):
-    from phylib.utils import _misc as M
     op = case['op']
+    if op == 'json_env':
+        return run_child(case['env'], case['dicts'])
+    from phylib.utils import _misc as M
     with C.scratch_dir() as d:
         if case.get('stale'):
             # the SAME path held other contents before, written and read back once (str and Path spellings): what is read
@@ -288,10 +405,26 @@ def impl(case):
             data = {(k['int'] if 'int' in k else k['str']): build(v) for k, v in case['dict']}
             M.save_json(d / 'x.json', data)
             out = M.load_json(d / 'x.json')
-            return dict(keys=[[type(k).__name__, k] for k in out.keys()],
+            return dict(keys=[[type(k).__name__, tok(k)] for k in out.keys()],
                         same=bool(set(out.keys()) == set(data.keys()) and all(type(k) in (int, str) for k in out) and
                                   all(same(data[k], out[k]) for k in data)),
-                        shape={str(k): shape_of(out[k]) for k in out})
+                        shape={tok(str(k)): shape_of(out[k]) for k in out})
+        if op == 'jsonstr':
+            # the text layer: each str (given by its code points) alone as a value; the file text as the real reader
+            # decodes it, and the value that comes back
+            res = []
+            for cps in case['strings']:
+                sv = ''.join(map(chr, cps))
+                try:
+                    M.save_json(d / 's.json', {'k': sv})
+                    text = (d / 's.json').read_text()
+                    out = M.load_json(d / 's.json')
+                    back = out.get('k')
+                    res.append(dict(text=[ord(c) for c in text], keys=[tok(k) for k in out],
+                                    back=[ord(c) for c in back] if isinstance(back, str) else None))
+                except Exception as e:  # noqa
+                    res.append(dict(raised=type(e).__name__, msg=str(e)[:200]))
+            return res
         if op == 'tsv':
             npf = {'32': np.float32, '64': np.float64}.get(str(case.get('npfloat')), float)
             rows = [{f: (c['int'] if 'int' in c else (npf(c['float']) if 'float' in c else c['text'])) for f, c in r}
@@ -349,10 +482,30 @@ def impl(case):
     raise ValueError(op)
 
 
+# the file json.dump(..., indent=2) writes for {'k': <str>}: prefix, the string literal, suffix
+STR_PREFIX = [ord(c) for c in '{\n  "k": ']
+STR_SUFFIX = [ord(c) for c in '\n}']
+
+
+def lean_key(k):
+    return k if 'int' in k else {'str': tok(k['str'])}
+
+
 def model_query(case, impl_res):
     if case['op'] == 'json':
         case['_mem'] = mem = []
-        return dict(p=PID, op='json', dict=[[k, to_lean(v, mem)] for k, v in case['dict']])
+        return dict(p=PID, op='json', dict=[[lean_key(k), to_lean(v, mem)] for k, v in case['dict']])
+    if case['op'] == 'json_env':
+        case['_mems'] = [[] for _ in case['dicts']]
+        return dict(p=PID, op='json_many', dicts=[[[lean_key(k), to_lean(v, mem)] for k, v in d]
+                                                  for d, mem in zip(case['dicts'], case['_mems'])])
+    if case['op'] == 'jsonstr':
+        bodies = [None] * len(case['strings'])
+        if isinstance(impl_res.get('ok'), list):
+            # the text after the opening quote of the value
+            n = len(STR_PREFIX) + 1
+            bodies = [r['text'][n:] if r.get('text') and r['text'][:n] == STR_PREFIX + [34] else None for r in impl_res['ok']]
+        return dict(p=PID, op='jsonstr', strings=case['strings'], impl_bodies=bodies)
     text = impl_res['ok'].get('text') if isinstance(impl_res.get('ok'), dict) else None
     if case['op'] == 'tsv':
         npf = {'32': np.float32, '64': np.float64}.get(str(case.get('npfloat')), float)
@@ -371,24 +524,81 @@ def model_query(case, impl_res):
     raise ValueError(case['op'])
 
 
-def judge(case, impl_res, ans):
-    if 'err' in ans:
-        return 'MACHINERY: driver error %s' % ans['err']
-    m = ans['ok']
+def judge_json(entries, impl_res, m, mem):
+    """one dictionary saved and loaded by the real code (`impl_res`) against the Lean round trip `m`"""
     if 'raised' in impl_res:
         return 'SPEC: real code raised %s (%s) at %s on an in-domain value' % (
             impl_res['raised'], impl_res['msg'], impl_res['where'])
     ok = impl_res['ok']
+    if m['model'] != m['spec']:
+        return 'MACHINERY: model round trip differs from its spec (contradicts the theorem)'
+    if not ok['same']:
+        exp_keys = [[('int' if 'int' in k else 'str'), (k['int'] if 'int' in k else tok(k['str']))] for k, v in entries]
+        return 'SPEC: loaded dictionary differs from the saved one (keys loaded %s, saved %s)' % (ok['keys'], exp_keys)
+    exp = {str(k['int'] if 'int' in k else k['str']): lean_shape(v) for k, v in m['model']}
+    if set(ok['shape']) != set(exp) or not all(match_shape(ok['shape'][k], exp[k], mem) for k in exp):
+        return 'CORR: structure / array contents of the loaded value differ from the model'
+    return None
+
+
+def judge_jsonstr(cps, r, mm):
+    """one str through the real save_json / load_json (`r`) against the text-layer model (`mm`, Model/C18j)"""
+    sv = ''.join(map(chr, cps))
+    in_dom = mm['valid'] and mm['nojoin']
+    if mm['nojoin'] == joins(sv) or not mm['valid']:
+        return 'MACHINERY: the Lean spec NoJoin / ValidStr and the generator disagree'
+    if in_dom and (mm['scanned'] != [cps, STR_SUFFIX] or mm['via_ascii_file'] != [cps, []]):
+        return 'MACHINERY: model scanner does not give the string back (contradicts json_string_roundtrip)'
+    if mm['ascii'] != mm['literal'] or not mm['utf8_ok'] or not all(32 <= b <= 126 for b in mm['literal']):
+        return 'MACHINERY: model literal is not printable ASCII (contradicts json_string_text_ascii)'
+    if mm['scanned'] is None:
+        return 'MACHINERY: model scanner rejects the model literal'
+    if 'raised' in r:
+        # the model says: the literal can be encoded with every codec, so nothing raises
+        return '%s: real code raised %s (%s) saving / loading a one-str dictionary' % (
+            'SPEC' if in_dom else 'CORR', r['raised'], r['msg'])
+    if in_dom and (r['back'] != cps or r['keys'] != ['k']):
+        return 'SPEC: the str did not come back: loaded code points %s, saved %s' % (r['back'], cps)
+    if r['back'] != mm['scanned'][0]:
+        return 'CORR: loaded code points %s, the model scanner gives %s' % (r['back'], mm['scanned'][0])
+    if mm['real_scanned'] is not None and mm['real_scanned'] != [r['back'], STR_SUFFIX]:
+        return 'CORR: the text written by the real code, read by the model scanner, is %s; the real reader gave %s' % (
+            mm['real_scanned'], r['back'])
+    return None
+
+
+def judge(case, impl_res, ans):
+    if 'err' in ans:
+        return 'MACHINERY: driver error %s' % ans['err']
+    m = ans['ok']
     op = case['op']
     if op == 'json':
-        if m['model'] != m['spec']:
-            return 'MACHINERY: model round trip differs from its spec (contradicts the theorem)'
-        if not ok['same']:
-            exp_keys = [[('int' if 'int' in k else 'str'), (k['int'] if 'int' in k else k['str'])] for k, v in case['dict']]
-            return 'SPEC: loaded dictionary differs from the saved one (keys loaded %s, saved %s)' % (ok['keys'], exp_keys)
-        exp = {str(k['int'] if 'int' in k else k['str']): lean_shape(v) for k, v in m['model']}
-        if set(ok['shape']) != set(exp) or not all(match_shape(ok['shape'][k], exp[k], case['_mem']) for k in exp):
-            return 'CORR: structure / array contents of the loaded value differ from the model'
+        return asc(judge_json(case['dict'], impl_res, m, case['_mem']))
+    if op == 'json_env' and 'raised' in impl_res:
+        return asc('MACHINERY: the harness could not start the child process: %s %s' % (impl_res['raised'], impl_res['msg']))
+    if 'raised' in impl_res:
+        return 'SPEC: real code raised %s (%s) at %s on an in-domain value' % (
+            impl_res['raised'], impl_res['msg'], impl_res['where'])
+    ok = impl_res['ok']
+    if op == 'json_env':
+        # each dictionary of the batch as saved and loaded by the child process under the other locale
+        if 'child_failed' in ok:
+            return asc('MACHINERY: the child process of the real code could not run: %s' % ok['child_failed'])
+        if len(m['results']) != len(case['dicts']):
+            return 'MACHINERY: driver answered %d of %d dictionaries' % (len(m['results']), len(case['dicts']))
+        verdicts = [judge_json(d, r, mm, mem) for d, r, mm, mem in zip(case['dicts'], ok['results'], m['results'], case['_mems'])]
+        for kind in ('MACHINERY', 'SPEC', 'CORR'):
+            for i, w in enumerate(verdicts):
+                if w and w.startswith(kind):
+                    return asc('%s: in a process with locale encoding %s (%s, UTF-8 mode %s), dictionary %d: %s' % (
+                        kind, ok.get('encoding'), case['env'], ok.get('utf8_mode'), i, w.split(': ', 1)[1]))
+        return None
+    if op == 'jsonstr':
+        for cps, r, mm in zip(case['strings'], ok, m['results']):
+            sv = ''.join(map(chr, cps))
+            w = judge_jsonstr(cps, r, mm)
+            if w:
+                return asc('%s (str %a)' % (w, sv))
         return None
     if op == 'tsv':
         if m.get('header') is None:
@@ -456,7 +666,9 @@ def judge(case, impl_res, ans):
 def nontrivial(case):
     if case['op'] == 'json':
         return any(v['t'] in ('arr', 'list', 'dict') for k, v in case['dict'])
-    if case['op'] == 'number':
+    if case['op'] == 'json_env':
+        return any(v['t'] in ('arr', 'list', 'dict') for d in case['dicts'] for k, v in d)
+    if case['op'] in ('number', 'jsonstr'):
         return True
     return len(case.get('rows', case.get('data', []))) >= 2
 
@@ -465,20 +677,53 @@ def tally(rep, case, impl_res, ans):
     rep.count('op:' + case['op'])
     if case.get('stale') and case['op'] in ('json', 'tsv', 'simple', 'params'):
         rep.count('path_held_other_contents_read_before')
-    if case['op'] == 'json':
-        for k, v in case['dict']:
-            rep.count('key:%s' % ('int' if 'int' in k else 'str'))
+    if case['op'] == 'jsonstr' and isinstance(impl_res.get('ok'), list) and isinstance(ans.get('ok'), dict):
+        for cps, r, mm in zip(case['strings'], impl_res['ok'], ans['ok']['results']):
+            rep.count('jsonstr:strings')
+            for c in str_classes(''.join(map(chr, cps))) - {'ascii'}:
+                rep.count('jsonstr:' + c)
+            if not mm['nojoin']:
+                rep.count('jsonstr:high_then_low_surrogate(outside:json_joins_them)')
+            if not mm['raw_utf8_ok']:
+                rep.count('jsonstr:str_not_encodable_as_utf8')
+            if not mm['raw_ascii_ok']:
+                rep.count('jsonstr:str_not_encodable_as_ascii')
+            # mechanism-level tie, never an alarm: is the file the text the model writes, character by character?
+            if 'text' in r:
+                rep.count('jsonstr:file_text_equals_model' if r['text'] == STR_PREFIX + mm['literal'] + STR_SUFFIX
+                          else 'jsonstr:file_text_DIFFERS_from_model')
+    if case['op'] == 'json_env':
+        ok = impl_res.get('ok') if isinstance(impl_res.get('ok'), dict) else {}
+        rep.count('json_env:%s:child_locale_encoding:%s' % (case['env'], ok.get('encoding', 'child_failed')))
+        rep.count('json_env:dictionaries_saved_and_loaded_by_child', len(case['dicts']))
+    if case['op'] in ('json', 'json_env'):
+        pre = '' if case['op'] == 'json' else 'json_env:'
+
+        def strcls(where, text):
+            cl = str_classes(text) - {'ascii'}
+            for c in cl:
+                rep.count('%sstr_%s:%s' % (pre, where, c))
+            if cl & {'low_surrogate', 'high_surrogate'}:
+                rep.count('%sstr_with_lone_surrogate' % pre)
+
+        for k, v in (case['dict'] if case['op'] == 'json' else [e for d in case['dicts'] for e in d]):
+            rep.count(pre + 'key:%s' % ('int' if 'int' in k else 'str'))
             if 'int' in k and k['int'] < 0:
-                rep.count('negative_int_key')
+                rep.count(pre + 'negative_int_key')
+            if 'str' in k:
+                strcls('key', k['str'])
 
             def walk(x):
-                rep.count('value:' + x['t'])
+                rep.count(pre + 'value:' + x['t'])
                 if x['t'] == 'arr':
-                    rep.count('arr_rank:%d' % len(x['shape']))
-                    rep.count('arr_layout:' + x.get('layout', 'C'))
+                    rep.count(pre + 'arr_rank:%d' % len(x['shape']))
+                    rep.count(pre + 'arr_layout:' + x.get('layout', 'C'))
+                if x['t'] == 'str':
+                    strcls('value', x['v'])
                 if x['t'] == 'list':
                     [walk(y) for y in x['v']]
                 if x['t'] == 'dict':
+                    [strcls('nested_key', kk) for kk, _ in x['v']]
                     [walk(y) for _, y in x['v']]
             walk(v)
     elif case['op'] in ('tsv', 'simple', 'csv', 'params'):
@@ -494,17 +739,25 @@ def classify(case, impl_res, ans, why):
     d = dict(op=case['op'], kind=why.split(':')[0], raised=impl_res.get('raised'))
     if case['op'] == 'json':
         d['negative_key'] = any('int' in k and k['int'] < 0 for k, v in case['dict'])
+    if case['op'] == 'json_env':
+        d['env'] = case['env']
     return d
 
 
 def shrink(case):
-    key = {'json': 'dict', 'tsv': 'rows', 'simple': 'data', 'params': 'data', 'number': 'strings', 'csv': 'rows'}[case['op']]
+    key = {'json': 'dict', 'json_env': 'dicts', 'jsonstr': 'strings', 'tsv': 'rows', 'simple': 'data', 'params': 'data', 'number': 'strings', 'csv': 'rows'}[case['op']]
     v = case[key]
+    if case['op'] == 'json_env' and len(v) > 2:
+        yield dict(case, dicts=v[:len(v) // 2])        # every candidate costs one child process: halve first
+        yield dict(case, dicts=v[len(v) // 2:])
     if len(v) > 1:
         for i in range(len(v)):
             c = dict(case); c[key] = v[:i] + v[i + 1:]
             if case['op'] != 'tsv' or len({f for r in c['rows'] for f, _ in r}) >= 2:
                 yield c
+    elif case['op'] == 'json_env' and len(v) == 1 and len(v[0]) > 1:
+        for i in range(len(v[0])):
+            yield dict(case, dicts=[v[0][:i] + v[0][i + 1:]])
 
 
 TEXTS = ['abc', 'a\tb', 'x,y', 'say "hi"', "it's", 'tab\tand,comma', 'good', 'mua', 'ünï', 'a b ', '#1', '1e', '--', 'e5']
@@ -563,7 +816,7 @@ def rand_value(rng, depth=0):
     if t == 'float':
         return dict(t='float', f=rng.pick([0.5, -2.25, 1e-9, 3.0, 1e300]))
     if t == 'str':
-        return dict(t='str', v=rng.pick(TEXTS + ['', '12', '__ndarray_']))
+        return dict(t='str', v=rng.pick(TEXTS + ['', '12', '__ndarray_']) if rng.random() < .5 else rand_ustr(rng))
     if t == 'np':
         dt = rng.pick(['int32', 'int64', 'uint8', 'float32', 'float64', 'int16'])
         return dict(t='np', dt=dt, v=rng.pick([0, 3, -2, 100]) if not dt.startswith('u') else rng.pick([0, 3, 200]))
@@ -574,7 +827,29 @@ def rand_value(rng, depth=0):
     if t == 'list':
         return dict(t='list', v=[rand_value(rng, depth + 1) for _ in range(rng.randrange(0, 4))])
     keys = rng.sample(['a', 'b', 'key', 'x y', '7', 'dtype', 'shape'], rng.randrange(0, 4))
+    if rng.random() < .3:
+        keys = sorted(set(keys) | {rand_ustr(rng) for _ in range(rng.randrange(1, 3))})
     return dict(t='dict', v=[[k, rand_value(rng, depth + 1)] for k in keys])
+
+
+def rand_entries(rng):
+    """a random top-level dictionary: int keys, str keys that are not integer-like (fixed list + strings over all classes of
+    code points), random values"""
+    n = rng.randrange(0, 5)
+    ints = rng.sample(range(-5, 30), n)
+    strs = rng.sample(['a', 'b1', 'x-1', 'key', '1.0', '+3', ' 2', '\xf1', '\u00b2', '\u0663', '1_0', '\uff11'], rng.randrange(0, 3))
+    if rng.random() < .4:
+        strs = sorted(set(strs) | {u for u in (rand_ustr(rng) for _ in range(rng.randrange(1, 3))) if not INT_LIKE.match(u)})
+    entries = [[{'int': i}, rand_value(rng)] for i in ints] + [[{'str': s}, rand_value(rng)] for s in strs]
+    rng.shuffle(entries)
+    return entries
+
+
+def str_probe(s):
+    """the string `s` at every place of a dictionary where a str can stand"""
+    sv = dict(t='str', v=s)
+    return [[{'str': 'k'}, sv], [{'str': s + 'K'}, dict(t='list', v=[sv, dict(t='dict', v=[[s, sv], ['n', dict(t='int', v=1)]])])],
+            [{'int': 3}, sv]]
 
 
 def gen(tier, rng):
@@ -587,13 +862,31 @@ def gen(tier, rng):
                                                    [{'str': 'k'}, dict(t='int', v=1)]])
     for key in ({'int': 0}, {'int': -1}, {'int': -12}, {'int': 10 ** 9}, {'str': 'abc'}, {'str': '-x'}, {'str': '1.5'}, {'str': ''}, {'str': '-'}):
         yield dict(p=PID, op='json', dict=[[key, dict(t='str', v='x')]])
-    for _ in range(1500 if q else 30000):
-        n = rng.randrange(0, 5)
-        ints = rng.sample(range(-5, 30), n)
-        strs = rng.sample(['a', 'b1', 'x-1', 'key', '1.0', '+3', ' 2', 'ñ', '\u00b2', '\u0663', '1_0', '\uff11'], rng.randrange(0, 3))
-        entries = [[{'int': i}, rand_value(rng)] for i in ints] + [[{'str': s}, rand_value(rng)] for s in strs]
-        rng.shuffle(entries)
-        yield dict(p=PID, op='json', dict=entries, stale=rng.random() < .3)
+    # every code point of every class (and the composed words) alone, at every place where a str can stand
+    probes = [c for k in sorted(CP) for c in CP[k]] + [w for w in WORDS if not joins(w)]
+    for s in probes:
+        yield dict(p=PID, op='json', dict=str_probe(s))
+    # the same probes and random dictionaries saved and loaded by a child process under a non-UTF-8 locale
+    # (one interpreter start per case: spread over the stream so that the worker pool runs them side by side)
+    envs = [dict(p=PID, op='json_env', env='C', dicts=[str_probe(s) for s in probes[i:i + 16]]) for i in range(0, len(probes), 16)]
+    envs += [dict(p=PID, op='json_env', env='C', dicts=[rand_entries(rng) for _ in range(20)]) for _ in range(8 if q else 150)]
+    # the text layer (Model/C18j): single strings, those with a high surrogate directly before a low one included (the
+    # model says what the json library makes of them)
+    cps = lambda t: [ord(c) for c in t]
+    yield dict(p=PID, op='jsonstr', strings=[cps(t) for t in probes + ['\ud83e\udde0', 'a\udbff\udc00b', '\ud800\ud800\udfff\udfff']])
+    for _ in range(6 if q else 200):
+        strings = []
+        for _ in range(40):
+            if rng.random() < .7:
+                strings.append(cps(rand_ustr(rng)))
+            else:       # unrestricted: adjacent surrogates in any order
+                strings.append([ord(rng.pick(CP[rng.pick(['low_surrogate', 'high_surrogate', 'high_surrogate', 'ascii', 'astral', 'bmp'])]))
+                                for _ in range(rng.randrange(1, 6))])
+        yield dict(p=PID, op='jsonstr', strings=strings)
+    for i in range(1500 if q else 30000):
+        if i % 40 == 0 and envs:
+            yield envs.pop(0)
+        yield dict(p=PID, op='json', dict=rand_entries(rng), stale=rng.random() < .3)
     # the number grammar of _try_make_number
     yield dict(p=PID, op='number', strings=NUMBERISH)
     for _ in range(60 if q else 2000):
